@@ -21,6 +21,7 @@ RULE = ('(i) idempotence: expr_simp of a memo-free copy of expr_simp(e) must be 
         'PYTHONHASHSEED, must be equal. A case = (law, canonical tree or item id); non-trivial = the tree contains an AC node with >=2 '
         'distinct operands (ii), the simplifier changed the tree (i), or the item produced output in every process (iii).')
 RULE += ' Round 6: 19 operands carrying one, two or three symbols (sums and differences) lifted, simplified, rendered and emulated under every hash seed.'
+RULE += ' Round 7: operand twins whose names differ by zero padding, digit runs or punctuation (var_8 / var_08, r2 / r10, a_b / ab).'
 ASSUMPTIONS = ['the corpus generator is hash-seed independent (blake2b-derived RNG, sorted iteration in the harness)']
 
 HASH_SEEDS_QUICK = [0, 1, 2, 3, 7, 42, 12345]
